@@ -32,7 +32,7 @@ def items(tier):
         a = alpha(p)
         Ls = [maxL] if tier == "quick" else range(0, maxL + 1)
         for L in Ls:
-            for api in ["pike.Search", "pike.IsMatch", "pike.SlotTable", "bt.Search", "bt.IsMatch", "dfa.Find", "dfa.SearchFirstAt", "dfa.IsMatch", "dfa.Anchored", "dfa.Reverse"]:
+            for api in (["pike.Search", "pike.SlotTable", "bt.Search", "dfa.Find", "dfa.SearchFirstAt", "dfa.IsMatch", "dfa.Anchored", "dfa.Reverse"] if tier == "quick" else ["pike.Search", "pike.IsMatch", "pike.SlotTable", "bt.Search", "bt.IsMatch", "dfa.Find", "dfa.SearchFirstAt", "dfa.IsMatch", "dfa.Anchored", "dfa.Reverse"]):
                 if api == "dfa.Reverse" and not lbfree:
                     continue
                 out.append(mk("C14", p, api, L, a))
@@ -45,11 +45,11 @@ def items(tier):
                     out.append(mk("C14", p, api, maxL, a, n=at))
         else:
             # look-behind patterns at a start offset (reference: regexp on the whole ASCII haystack)
-            for api in ["pike.SearchAt", "bt.Search", "dfa.Find", "dfa.SearchAt", "dfa.IsMatch"]:
+            for api in (["pike.SearchAt", "dfa.SearchAt"] if tier == "quick" else ["pike.SearchAt", "bt.Search", "dfa.Find", "dfa.SearchAt", "dfa.IsMatch"]):
                 out.append(mk("C14", p, api, maxL, "ascii", n=1, mode=1))
         # tiny caches at a start offset: the NFA fall-back must still see the bytes before the offset
         for x in (TINY[1:3] if tier == "quick" else TINY[1:]):
-            for api in ["dfa.Find", "dfa.SearchAt"]:
+            for api in (["dfa.SearchAt"] if tier == "quick" else ["dfa.Find", "dfa.SearchAt"]):
                 out.append(mk("C14", p, api, maxL, a if lbfree else "ascii", n=1, mode=0 if lbfree else 1, extra=x))
         # cache too small to hold the automaton / clear budget exhausted / determinisation limit
         for x in TINY[1:] if tier != "quick" else TINY[1:3]:
